@@ -48,12 +48,20 @@ pub fn label_c01(rng: &mut Rng, t: &mut Rose, kind: LenKind, len_mode: LenMode) 
     let root_len = rng.chance(1, 3);
     // lengths on internal branches only / on terminal branches only are partial annotations too
     let pattern = rng.below(8);
+    let repeats = rng.chance(1, 8);
+    let mut last_name: Option<String> = None;
     let mut f = |r: &mut Rose, is_root: bool, _d: usize| {
         k += 1;
         let tip = r.kids.is_empty();
         let named = if tip { leafy > 1 || rng.chance(1, 2) } else { inty > 5 && rng.chance(2, 3) };
         if named {
-            r.name = Some(gen_name(rng, k));
+            // in one tree out of eight labels may repeat (the previous label is given again: neighbouring tips with one
+            // name are legal for the writer, the parser and the Nexus export, which lists every tip)
+            r.name = Some(match &last_name {
+                Some(n) if repeats && rng.chance(1, 2) => n.clone(),
+                _ => gen_name(rng, k),
+            });
+            last_name = r.name.clone();
         }
         if cm > 2 && rng.chance(1, 3) {
             r.comment = Some(gen_comment(rng));
@@ -86,7 +94,7 @@ fn build(rng: &mut Rng, r: &Rose) -> (Tree, &'static str, u64) {
         }
         0 => if rng.chance(1, 2) { (build_api(r), "api", 0) } else { (build_bottom_up(r, &mut Rng::new(seed)), "bottomup", seed) },
         1 => (build_api_bfs(r), "bfs", 0),
-        2 => (build_with_tombstones(r, &mut Rng::new(seed)), "tomb", seed),
+        2 => if rng.chance(1, 2) { (build_with_tombstones(r, &mut Rng::new(seed)), "tomb", seed) } else { (build_with_tombstones2(r, &mut Rng::new(seed)), "tomb2", seed) },
         _ => match Tree::from_newick(&r.newick()) {
             Ok(t) => (t, "parse", 0),
             Err(_) => (build_api(r), "api", 0),
